@@ -1,2 +1,7 @@
 import WrglModel.Props.C12
-#print axioms Wrgl.C12_placeholder
+#print axioms Wrgl.C12_fact_searchChecked
+#print axioms Wrgl.C12_no_panic
+#print axioms Wrgl.C12_completes
+#print axioms Wrgl.C12_mark_exact
+#print axioms Wrgl.C12_reachable_kept_unreachable_gone
+#print axioms Wrgl.C12_idempotent
